@@ -1675,6 +1675,14 @@ ORACLES = {
 }
 
 
+def r1516():
+    """robustness classes R15 / R16 (helper module; its oracles are replayable like the ones above)"""
+    from harness.props import c17_r1516
+    for k_, v_ in c17_r1516.ORACLES.items():
+        ORACLES.setdefault(k_, v_)
+    return c17_r1516
+
+
 def run_value_oracles(ctx, spec, nontrivial=True):
     """the value and, for arrays of ndim >= 2, the same value in every memory layout"""
     run_oracle(ctx, 'json.roundtrip', {'v': spec}, nontrivial=nontrivial)
@@ -1704,6 +1712,7 @@ def run_oracle(ctx, call, case, key=None, nontrivial=True):
 
 
 def replay(ctx, rep):
+    r1516()
     try:
         with time_limit(20.0):
             r = ORACLES[rep['call']](rep['case'])
@@ -2813,6 +2822,7 @@ def correspondence(ctx):
     b.flush()
     robustness_pass(ctx, b)
     r8_14_pass(ctx, b, ctx.tier == 'thorough')
+    r1516().corr_pass(ctx, b)
     if ctx.tier == 'thorough':
         small_scope(ctx, b)
 
@@ -2966,6 +2976,8 @@ def oracle_pass(ctx, scale=1.0):
     run_oracle(ctx, 'SimulationParameters.roundtrip.tuple', {'items': [['int', 1], ['int', 2]]})
     for kind in ('scalar', 'npscalar', 'array'):
         run_oracle(ctx, 'json.rejects-complex', {'kind': kind})
+    if scale == 1.0:
+        r1516().oracle_pass(ctx)        # R15 / R16
 
 
 def check(ctx):
@@ -2990,7 +3002,7 @@ def check(ctx):
                              'feature:set', 'params:child', 'params:unpacked-marks', 'params:depth=2',
                              'result:SUMTYPE', 'result:RATIOTYPE', 'result:MISCTYPE', 'result:CHOICETYPE',
                              'result:never-updated', 'result:accumulate', 'sim:current_rep-set', 'file:.json',
-                             'file:.pickle', 'file:none', 'template:missing-key']
+                             'file:.pickle', 'file:none', 'template:missing-key'] + r1516().REQUIRED
     os.environ.setdefault('VERIF_SCRATCH', ctx.scratch)
     import warnings
     with warnings.catch_warnings():
@@ -3015,3 +3027,4 @@ def search(ctx):
     with warnings.catch_warnings():
         warnings.simplefilter('ignore')
         oracle_pass(ctx, scale=4.0)
+        r1516().search_pass(ctx, 300)
